@@ -933,6 +933,8 @@ def obligations(tier):
     obls = []
     route = dict(SCENARIOS)
     route.update({k: EXTRA_SCENARIOS[k] for k in ROUTE_EXTRA})  # the extra scenarios that also state the values
+    small = lambda vs: (lambda N: vs(max(3, N - 2)))  # noqa: E731 - index[::step] ranges over n <= 4N: keep it inside the wall budget
+    route["index[::step]"] = (route["index[::step]"][0], small(route["index[::step]"][1]))
     for name, (fn, vs) in route.items():
         obls.append(
             Obl(
